@@ -10,6 +10,7 @@
  * which reports whether it loads and the abstract image of what it loaded.
  *
  * Script (one op per line, words separated by blanks, byte strings in hex, "-" = empty):
+ *   mark <n>                               echoed (lets the check cut the output into per-op segments)
  *   load <filehex>                         (re)create the credential file with this content and load it
  *   reload                                 free_passwd_data(); load_passwd_data() of the file as it is now
  *   peer <i>                               peer i (0..7) becomes a fresh, unauthenticated peer
@@ -651,7 +652,9 @@ int main(int argc, char **argv)
 		int nw = 0;
 		for (char *t = strtok(line, " \t\r\n"); t != NULL && nw < 8; t = strtok(NULL, " \t\r\n")) w[nw++] = t;
 		if (nw == 0 || w[0][0] == '#') continue;
-		if (strcmp(w[0], "load") == 0 && nw >= 2) {
+		if (strcmp(w[0], "mark") == 0 && nw >= 2) {
+			printf("mark %s\n", w[1]);
+		} else if (strcmp(w[0], "load") == 0 && nw >= 2) {
 			unsigned char *c; size_t l;
 			if (unhex(w[1], &c, &l) < 0) { printf("load badhex\n"); continue; }
 			if (loaded) { free_passwd_data(); loaded = 0; }
@@ -673,10 +676,8 @@ int main(int argc, char **argv)
 			if (unhex(w[2], &u, &ul) < 0 || unhex(w[3], &p, &pl) < 0) { printf("auth badhex\n"); continue; }
 			if (!loaded) { printf("auth notloaded\n"); free(u); free(p); continue; }
 			cJSON *req = make_request("authenticate", (char *)u, (char *)p);
-			char *before = peers[i].user_name;
+			/* (whether a previous name is released is C07's subject; leak detection is off for this harness) */
 			cJSON *resp = handle_authentication(&peers[i], req);
-			/* the unchanged code overwrites (leaks) a previous name: release it here, it is not C20's subject */
-			if (before != NULL && before != peers[i].user_name) cjet_free(before);
 			print_response("auth", resp);
 			print_peer(i);
 			cJSON_Delete(req);
